@@ -298,7 +298,9 @@ impl<T: ?Sized + Trace> Drop for Cc<T> {
                 decrement_counter(self);
                 remove_from_list(self.inner.cast());
 
-                let _dropping_guard = replace_state_field!(dropping, true, state);
+                // While a collection is running, `dropping` tells Weak::upgrade() whether the collector is running the
+                // destructors of the objects in its lists: this drop (requested by one of its callbacks) must not alter it.
+                let _dropping_guard = replace_state_field!(dropping, !state.is_collecting() || state.is_dropping(), state);
                 let layout = self.inner().layout();
 
                 #[cfg(feature = "weak-ptrs")]
